@@ -334,6 +334,441 @@ def check_case(t, cid, inp, obs, exp, broke):
                else "Go's regexp on the emitted text vs the model of the emitted term (trusted-spec validation / reparse ambiguity)")
 
 
+# ---------------------------------------------------------------- c21.compose: composition terms
+
+def split_term(term):
+    """post-order list of the subterms of a model-form term: ("L", flags, ast) | ("P", i, j) | ("R", n, i)"""
+    out = []
+    pos = [0]
+
+    def word():
+        st = pos[0]
+        while pos[0] < len(term) and term[pos[0]] not in "(),;":
+            pos[0] += 1
+        return term[st:pos[0]]
+
+    def expect(c):
+        if pos[0] >= len(term) or term[pos[0]] != c:
+            raise ValueError("term: expected %s at %d" % (c, pos[0]))
+        pos[0] += 1
+
+    def node():
+        k = word()
+        expect("(")
+        if k == "L":
+            fl = word()
+            expect(";")
+            st, depth = pos[0], 0
+            while pos[0] < len(term):
+                ch = term[pos[0]]
+                if ch == "(":
+                    depth += 1
+                elif ch == ")":
+                    if depth == 0:
+                        break
+                    depth -= 1
+                pos[0] += 1
+            out.append(("L", fl, term[st:pos[0]]))
+        elif k == "P":
+            a = node()
+            expect(",")
+            b = node()
+            out.append(("P", a, b))
+        elif k == "R":
+            n = word()
+            expect(";")
+            a = node()
+            out.append(("R", n, a))
+        else:
+            raise ValueError("term node %r" % k)
+        expect(")")
+        return len(out) - 1
+    node()
+    if pos[0] != len(term):
+        raise ValueError("trailing text after the term")
+    return out
+
+
+def show_term(tsrc):
+    """readable form of a replay term: L(i;78) -> %/x/i, P(a,b) -> (a + b), R(2;a) -> (a * 2)"""
+    pos = [0]
+
+    def word():
+        st = pos[0]
+        while pos[0] < len(tsrc) and tsrc[pos[0]] not in "(),;":
+            pos[0] += 1
+        return tsrc[st:pos[0]]
+
+    def node():
+        k = word()
+        pos[0] += 1
+        if k == "L":
+            fl = word()
+            pos[0] += 1
+            h = word()
+            r = "%/" + ("" if h == "e" else unhex(h)) + "/" + ("" if fl == "-" else fl)
+        elif k == "P":
+            a = node()
+            pos[0] += 1
+            r = "(" + a + " + " + node() + ")"
+        elif k == "R":
+            n = word()
+            pos[0] += 1
+            r = "(" + node() + " * " + n + ")"
+        else:
+            raise ValueError(k)
+        pos[0] += 1
+        return r
+    try:
+        r = node()
+        return r[1:-1] if r.startswith("(") else r
+    except (ValueError, IndexError):
+        return tsrc
+
+
+def elk_subject_ok(sub):
+    return "'" not in sub and all((ord(c) >= 0x20 or c in "\n\t") and ord(c) != 0x7F for c in sub) and "�" not in sub
+
+
+class ComposeTally:
+    def __init__(self):
+        self.cases = 0
+        self.evals = 0
+        self.nontrivial = set()
+        self.dist = {}
+        self.mism = 0
+        self.fails = []
+        self.pending = []        # verdict disagreements waiting for the diagnosis of the failing step
+        self.elk_cases = []      # (id, expr, [(index, subject)], inp, obs, expected root bits, key if the API already disagrees)
+        self.elk_evals = 0
+
+    def bump(self, k, n=1):
+        self.dist[k] = self.dist.get(k, 0) + n
+
+    def fail(self, size, key, what, case, impl, model, oracle):
+        self.mism += 1
+        self.fails.append((size, key, what, "c21.compose", case, impl, model, oracle))
+
+
+def op_name(sub):
+    return {"L": "leaf", "P": "concat"}.get(sub[0], "repeat")
+
+
+def check_compose_case(t, cid, inp, obs, exp, broke):
+    kv = parse_input(inp)
+    tsrc = kv.get("tsrc", "")
+    base = "tsrc=" + tsrc
+    t.cases += 1
+    t.bump("gen:" + cid[:1])
+    if obs.startswith("panic"):
+        t.fail(len(tsrc), "compose:panic", "%s: the implementation panicked: %s" % (tsrc, obs[:200]), base, obs[:300], exp,
+               "Regex#+ / Regex#* must not panic")
+        return
+    o = parse_obs(obs)
+    if o.get("st", "").startswith("bad-replay"):
+        broke("corpus line does not replay: %s (%s)" % (tsrc, unhex(o["st"].split(":", 1)[1])))
+        return
+    if exp is None or exp.startswith("driver-error") or "se=" not in exp:
+        broke("model gave no answer for %s (%s)" % (base, exp))
+        return
+    e = parse_obs(exp)
+    try:
+        subs = split_term(kv.get("term", ""))
+    except ValueError as ex:
+        broke("unreadable term in %s: %s" % (base, ex))
+        return
+    subj = kv.get("subj", "").split(",")
+    base += " subj=" + kv.get("subj", "")
+    desc = [d.split(":") for d in o.get("sub", "").split("/")]
+    if len(desc) != len(subs):
+        broke("malformed subterm list for %s: %s" % (base, obs[:200]))
+        return
+    nleaves = sum(1 for x in subs if x[0] == "L")
+    depth = term_depth(subs)
+    # leaves that c21.text / c21.match own: extended-mode comments (no theorem), re-read ambiguities (known findings)
+    if "skip" in e:
+        t.bump("not evaluated: a leaf has a `#` where x is on (comments: c21.text)")
+        return
+    for x in subs:
+        if x[0] != "L":
+            continue
+        lk = {"f": x[1], "ast": x[2]}
+        rk = reparse_key(lk)
+        if rk or x_quantified_whitespace(lk):
+            t.bump("not evaluated: a leaf is in a c21.match known-finding class (%s)" % (rk or "extended:quantified-whitespace"))
+            return
+    # ---- a step that raised
+    st = o.get("st", "")
+    if st.startswith("err:"):
+        _, at, msg = st.split(":", 2)
+        at = int(at)
+        x = subs[at]
+        cls = [desc[i][2] for i in x[1:] if isinstance(i, int)]
+        key = "compose:error:%s:%s" % (op_name(x), "+".join(cls))
+        t.bump("step raised")
+        t.fail(len(tsrc), key, "%s: step %d (%s on operand source shape %s) raised: %s" % (show_term(tsrc), at, x[0] + (x[1] if x[0] == "R" else ""),
+                                                                                       "+".join(cls), unhex(msg)[:200]),
+               base, "st=" + unhex(msg)[:200], exp, "every leaf compiles and no repeat count exceeds Go's limits: `+` / `*` must yield a regex")
+        return
+    sm = o.get("sm", "").split("/")
+    se = e.get("se", "").split("/")
+    if len(sm) != len(subs) or len(se) != len(subs) or any(len(b) != len(subj) for b in sm + se):
+        broke("malformed verdict bits for %s: %s | %s" % (base, obs[:200], exp[:200]))
+        return
+    t.bump("evaluated:depth-%d" % depth)
+    t.bump("evaluated:leaves-%d" % nleaves)
+    t.bump("root:" + desc[-1][1][:1] + ":" + desc[-1][2])
+    t.evals += len(subj) * len(subs)
+    if "0" in sm[-1] and "1" in sm[-1]:
+        t.nontrivial.add(tsrc)
+    key = None
+    bad = [i for i in range(len(subs)) if sm[i] != se[i]]
+    if bad:
+        # a disagreement on Regex#matches verdicts.  WHICH step breaks is decided afterwards (diagnose_compose): an operand can
+        # be wrong as a value although its own unanchored verdicts agree (`x * 0` always "matches"), so the first disagreeing
+        # verdict is not the place
+        key = "pending"
+        i = bad[0]
+        k = [j for j in range(len(subj)) if sm[i][j] != se[i][j]][0]
+        t.mism += 1
+        t.pending.append({"size": len(tsrc) + len(subj[k]), "cid": cid, "tsrc": tsrc, "subj": kv.get("subj", ""), "subs": subs, "desc": desc,
+                          "first": i, "k": k, "sm": o.get("sm", ""), "se": e.get("se", ""), "src": o.get("src"), "base": base})
+    if key is None:
+        root = subs[-1]
+        if o.get("fl") != e.get("cf"):
+            t.fail(len(tsrc), "compose:flags:" + op_name(root), "%s: the composed value carries flags %s, expected %s" % (show_term(tsrc), o.get("fl"), e.get("cf")),
+                   base, "fl=" + str(o.get("fl")), "cf=" + str(e.get("cf")), "`+` yields a regex without flags, `*` keeps the receiver's flags (cflags)")
+        if o.get("d", "-") != "-" and o.get("d") != sm[-1]:
+            t.fail(len(tsrc), "compose:direct-oracle:" + op_name(root),
+                   "%s: Regex#matches gives %s, composing the leaves' transpiled texts on the Go side gives %s" % (show_term(tsrc), sm[-1], o.get("d")),
+                   base, "sm=" + sm[-1], None, "direct oracle: (?:T(l1))(?:T(l2)) / (?:..){n} over the leaves' own Transpile outputs")
+        if o.get("rt", "-") != sm[-1]:
+            t.fail(len(tsrc), "compose:source-reread:" + op_name(root),
+                   "%s: the value matches %s, its own source %s re-compiled with its flags matches %s" % (show_term(tsrc), sm[-1], show(o.get("src")), o.get("rt")),
+                   base, "sm=" + sm[-1], None, "a regex value must behave like the literal its inspect shows")
+    # ---- the Elk level: the same term as an expression
+    if kv.get("elk", "-") != "-":
+        picks = [(j, "" if subj[j] == "e" else unhex(subj[j])) for j in range(len(subj))]
+        picks = [(j, sj) for j, sj in picks if elk_subject_ok(sj)]
+        if picks:
+            t.elk_cases.append((cid, unhex(kv["elk"]), picks, base, o, se[-1], key, tsrc))
+
+
+def step_failure(t, p, i, how):
+    """report the disagreement p, attributed to subterm i"""
+    subs, desc, tsrc = p["subs"], p["desc"], p["tsrc"]
+    x = subs[i]
+    subj = p["subj"].split(",")
+    f, k = p["first"], p["k"]
+    sm, se = p["sm"].split("/"), p["se"].split("/")
+    sj = "" if subj[k] == "e" else unhex(subj[k])
+    verdict = "subject=%r: Regex#matches says %s, the term denotes %s" % (sj, sm[f][k], se[f][k])
+    if f != len(subs) - 1:
+        verdict = "subterm %d, " % f + verdict
+    if x[0] == "L":
+        key = "match:e:" + feature_tags({"f": x[1], "ast": x[2]})
+        what = "%s %s; %s: leaf %d alone differs from the Elk denotation of its tree (a leaf-level disagreement: c21.match's class)" % (
+            show_term(tsrc), verdict, how, i)
+    else:
+        cls = [desc[j][2] for j in x[1:] if isinstance(j, int)]
+        key = "compose:%s:%s" % (op_name(x), "+".join(cls))
+        what = "%s %s; %s: the operands of step %d have the relation their subterms denote, the result of `%s` on operand source shape(s) %s does not%s" % (
+            show_term(tsrc), verdict, how, i, "+" if x[0] == "P" else "* " + x[1], "+".join(cls),
+            " (source of the result: %s)" % show(p["src"]) if i == len(subs) - 1 else "")
+    t.fails.append((p["size"], key, what, "c21.compose", p["base"], "sm=" + p["sm"], "se=" + p["se"],
+                    "Regex#matches of a composed regex must accept exactly the subjects the composition of the leaf denotations accepts "
+                    "(C21_compose_sound / C21_compose_transpile_sound); expected verdicts computed by the extracted cden on the leaf trees"))
+    return key
+
+
+def diagnose_compose(ctx, t, h, m, limit):
+    """the smallest failing terms again with -extra compose-diag: both sides print, for every subterm and subject, the match
+    RELATION (start position -> end positions, in the context of the whole subject); the failing step is the first subterm in
+    post-order whose relation differs - all its operands then have exactly the denoted relation on these subjects."""
+    t.pending.sort(key=lambda p: (p["size"], p["tsrc"]))
+    todo = t.pending[:limit]
+    if len(t.pending) > limit:
+        t.bump("disagreements beyond the %d smallest (not diagnosed individually)" % limit, len(t.pending) - limit)
+    if not todo:
+        return {}
+    path = os.path.join(ctx.workdir, "compose_diag.txt")
+    os.makedirs(ctx.workdir, exist_ok=True)
+    with open(path, "w") as f:
+        for p in todo:
+            f.write("tsrc=%s subj=%s\n" % (p["tsrc"], p["subj"]))
+    rc, out = vlib.sh([h, "-extra", "compose-diag", "-n", "0", "-input", path], timeout=900, env=vlib.elk_env())
+    ids, inputs, obs = vlib.parse_case_lines(out)
+    exp = {}
+    if rc == 0 and ids:
+        rc2, exp, mout = vlib.run_model(m, ids, inputs, timeout=900)
+    keys = {}
+    for n, p in enumerate(todo):
+        cid = "k%d" % n
+        o, e = parse_obs(obs.get(cid, "")), parse_obs(exp.get(cid) or "")
+        ri, rm = o.get("rel", "").split("/"), e.get("re", "").split("/")
+        where = None
+        if len(ri) == len(p["subs"]) and len(rm) == len(p["subs"]):
+            where = next((i for i in range(len(ri)) if ri[i] != rm[i]), None)
+        if where is None:
+            t.bump("diagnosis: no relation differs (first disagreeing verdict used)")
+            keys[p["cid"]] = step_failure(t, p, p["first"], "located by the first disagreeing verdict")
+        else:
+            t.bump("diagnosis: step located by its match relation")
+            keys[p["cid"]] = step_failure(t, p, where, "match relations compared subterm by subterm")
+    return keys
+
+
+def term_depth(subs):
+    d = {}
+    for i, x in enumerate(subs):
+        d[i] = 0 if x[0] == "L" else 1 + max(d[j] for j in x[1:] if isinstance(j, int))
+    return d[len(subs) - 1]
+
+
+def elk_program(batch):
+    lines = []
+    for k, (cid, expr, picks, base, o, want, key, tsrc) in enumerate(batch):
+        lines.append("r%d := %s" % (k, expr))
+        lines.append('println("I\\t%s\\t" + r%d.inspect)' % (cid, k))
+        parts = " + ".join("r%d.matches('%s').inspect" % (k, sj) for _, sj in picks)
+        lines.append('println("M\\t%s\\t" + %s)' % (cid, parts))
+    return "\n".join(lines) + "\n"
+
+
+def run_compose_elk(ctx, t, elk, limit):
+    """the terms as Elk expressions `((%/x/ + %/y/) * 2).matches('xyxy')`, many per program"""
+    cases = t.elk_cases[:limit]
+    per = 30
+    batches = [cases[i:i + per] for i in range(0, len(cases), per)]
+    progs = [("cmp%d" % i, elk_program(b)) for i, b in enumerate(batches)]
+    res = vlib.run_programs(elk, progs, os.path.join(ctx.workdir, "compose"), timeout=120, env={"GOMAXPROCS": "2"})
+    redo = []
+    for i, b in enumerate(batches):
+        rc, out, cls = res["cmp%d" % i]
+        if cls != "ok":
+            redo.append((i, b, out))
+            continue
+        read_elk_output(t, b, out)
+    # a program that does not run: its cases one by one (a compile error or a raised error hides the others)
+    if redo:
+        t.bump("elk: programs re-run case by case", len(redo))
+    singles = [c for _, b, _ in redo[:4] for c in b]
+    if len(redo) > 4:
+        ctx.broke("c21.compose: %d batched Elk programs failed" % len(redo), redo[4][2][-1500:])
+    if singles:
+        res = vlib.run_programs(elk, [("one%d" % i, elk_program([c])) for i, c in enumerate(singles)], os.path.join(ctx.workdir, "compose1"),
+                                timeout=60, env={"GOMAXPROCS": "2"})
+        for i, c in enumerate(singles):
+            rc, out, cls = res["one%d" % i]
+            if cls == "ok":
+                read_elk_output(t, [c], out)
+                continue
+            cid, expr, picks, base, o, want, key, tsrc = c
+            first = (out.strip().splitlines() or ["?"])[0][:200]
+            t.bump("elk: expression failed")
+            t.fail(len(tsrc), "compose:elk-error:" + cls, "%s: the Go API evaluates the term, the Elk program `%s` fails (%s): %s" % (show_term(tsrc), expr, cls, first),
+                   base, out[-400:], None, "Regex#+ / Regex#* in a program are the functions of vm/regex.go")
+
+
+def read_elk_output(t, batch, out):
+    got = {}
+    for line in out.split("\n"):
+        p = line.split("\t")
+        if len(p) == 3 and p[0] in ("I", "M"):
+            got[(p[0], p[1])] = p[2]
+    for cid, expr, picks, base, o, want, key, tsrc in batch:
+        ins, mm = got.get(("I", cid)), got.get(("M", cid))
+        if ins is None or mm is None:
+            t.bump("elk: no output for a case")
+            t.fail(len(tsrc), "compose:elk-error:no-output", "%s: the program printed nothing for `%s`" % (show_term(tsrc), expr), base, out[-300:], None,
+                   "every expression prints its inspect and its verdicts")
+            continue
+        bits = mm.replace("true", "1").replace("false", "0")
+        t.bump("elk: expressions evaluated")
+        t.elk_evals += len(picks)
+        src = "" if o.get("src") in ("e", None) else unhex(o.get("src"))
+        want_ins = "%/" + src + "/" + ("" if o.get("fl") in ("-", None) else o.get("fl"))
+        if ins != want_ins:
+            t.fail(len(tsrc), "compose:elk-inspect", "%s: inspect in the program is %r, the Go API value shows %r" % (show_term(tsrc), ins, want_ins),
+                   base, ins, want_ins, "the VM's `+` / `*` are value.Regex.ConcatVal / RepeatVal")
+        exp_bits = "".join(want[j] for j, _ in picks)
+        if bits != exp_bits and key is None:
+            # the Go API agreed with the model but the program does not
+            k = [j for j in range(len(bits)) if j >= len(exp_bits) or bits[j] != exp_bits[j]][0] if len(bits) == len(exp_bits) else 0
+            t.fail(len(tsrc), "compose:elk-verdict", "%s: `%s.matches(%r)` gives %s in the program, the term denotes %s" % (
+                show_term(tsrc), expr, picks[k][1], bits[k:k + 1], exp_bits[k:k + 1]), base, "elk=" + bits, "e=" + exp_bits,
+                "Regex#matches of the composed regex vs the denotation of the term")
+        elif bits != exp_bits:
+            t.bump("elk: confirms the API-level failure")
+
+
+RULE_COMPOSE = ("composition TERMS over regex literals: leaves = generated patterns, each with its own flag set (26% several top-level groups "
+                "`(A)(B)`, `(?:A)|(?i:B)`, `(A)-(B)` - sources that begin with `(` and end with `)` without being one group; single groups; anchors and the "
+                "empty regex; top-level alternations; sources that begin OR end with a group; sources ending in a quantifier; 36% the general c21.text grammar "
+                "with <= 6 nodes; flags from all 64 sets, x on 1/9), combined with `+` and `* n` (n in {0,1,2,3}, weighted to 2 and 3) nested to depth 3 "
+                "(<= 6 leaves), half of the terms closed with anchor leaves `^`/`\\A` + t + `$`/`\\z` (with their own flags, e.g. m); evaluated on the "
+                "implementation through value.Regex ConcatVal / RepeatVal exactly as vm/regex.go registers `+` / `*`, every subterm's value matched "
+                "against 8-11 subjects (<= 14 runes) drawn from the languages of the leaves: concatenations / n-fold repetitions of leaf samples, "
+                "near-misses (n-1 / n+1 copies, `l r^n` and `l^n r` for (l+r)*n, one side dropped / doubled / swapped), character mutations; expected "
+                "verdict of EVERY subterm = extracted cden (Model/C21_Compose.v) on the leaf trees walked from Go's regex parser - the composed source is never "
+                "parsed on the model side; the first subterm (post-order) that disagrees names the failing step. Also compared: flags of the value (cflags), "
+                "the direct Go-side composition of the leaves' Transpile outputs, the value's source re-compiled as a literal, and - for terms whose leaves can "
+                "be written as %/../ literals - the same term as an Elk expression run by the VM (`((%/x/ + %/y/) * 2).matches('xyxy')`, inspect and verdicts). "
+                "evaluations = subterm x subject verdicts; non-trivial = terms that accept some subject and reject another")
+
+
+def compose_stream(ctx, h, m):
+    corpus = os.path.join(vlib.ROOT, "corpus", "C21.compose.txt")
+    per = ctx.n(5000, 20000)
+    batches = [(ctx.sseed("c21.compose"), per, True)]
+    if not ctx.quick():
+        batches += [(ctx.sseed("c21.compose:%d" % b), per, False) for b in range(1, 5)]
+    t = ComposeTally()
+    samples = []
+    broken = []
+
+    def one(batch):
+        seed, n, with_corpus = batch
+        cmd = [h, "-extra", "compose", "-seed", str(seed), "-n", str(n), "-tier", ctx.tier]
+        if with_corpus and os.path.exists(corpus):
+            cmd += ["-input", corpus]
+        rc, out = vlib.sh(cmd, timeout=3000, env=vlib.elk_env())
+        ids, inputs, obs = vlib.parse_case_lines(out)
+        if rc != 0 or not ids:
+            return batch, rc, out[-3000:], None
+        rc2, exp, mout = vlib.run_model(m, ids, inputs, timeout=3000)
+        return batch, rc, "", (ids, inputs, obs, rc2, exp, mout[-2000:])
+
+    for batch, rc, log, res in vlib.parallel_map(one, batches, workers=ctx.n(1, 3)):
+        if res is None:
+            ctx.broke("correspondence c21.compose: harness exited %d" % rc, log)
+            continue
+        ids, inputs, obs, rc2, exp, mlog = res
+        if rc2 != 0:
+            ctx.broke("correspondence c21.compose: model driver exited %d" % rc2, mlog)
+        if batch[2]:
+            pick = [i for i in ids if "st=ok" in obs[i]]
+            samples = [{"input": inputs[i][:600], "observed": obs[i][:400]} for i in (pick[:2] + pick[-1:])]
+        for i in ids:
+            check_compose_case(t, i, inputs[i], obs[i], exp.get(i), lambda w: broken.append(w))
+    for w in broken[:5]:
+        ctx.broke("correspondence c21.compose: " + w)
+    diagnose_compose(ctx, t, h, m, ctx.n(60, 400))
+    if t.elk_cases:
+        elk = vlib.build_elk()
+        # corpus cases first (they come first), then the generated ones
+        run_compose_elk(ctx, t, elk, ctx.n(1500, 12000))
+    t.fails.sort(key=lambda x: (x[0], x[1]))
+    seen = {}
+    for size, key, what, stream, case, impl, model, oracle in t.fails:
+        seen[key] = seen.get(key, 0) + 1
+        if seen[key] <= 3:
+            ctx.fail(key, what, stream=stream, case=case, impl=impl, model=model, oracle=oracle)
+    ctx.stream("c21.compose", t.evals + t.elk_evals, len(t.nontrivial), RULE_COMPOSE, samples, t.dist,
+               mismatches=t.mism, failing_keys=sorted(seen), terms=t.cases, elk_expressions=t.dist.get("elk: expressions evaluated", 0),
+               elk_verdicts=t.elk_evals)
+
+
 RULE_TEXT = ("grammar-directed Elk regex sources (<= 12 nodes: literals incl. case-fold and whitespace specials, all escape forms, . anchors, "
              "\\d\\w\\s\\h\\v and negations at top level / in classes / in negated classes, \\p, POSIX classes, ranges, groups (capturing, "
              "non-capturing, 3 named forms), flag groups - bare `(?..)` in concatenations and alternatives and scoped `(?..:..)`, each SETTING and/or "
@@ -361,7 +796,11 @@ def run(ctx):
         "the Unicode oracles: when the transpiler model reports no failure, the emitted Go (RE2) term denotes the same position-set "
         "transformer as the Elk tree, hence accepts exactly the same subjects (C21_denotation, C21_transpile_sound; all node kinds, the "
         "three class modes, flags i m s U a with scoping); flags set in a group never leak (C21_flag_scoping, C21_flag_groups); "
-        "+ and * on regexes denote composition and iteration (C21_concat, C21_repeat). C21_extended_refuted: with flag x the faithful "
+        "+ and * on regexes denote composition and iteration (C21_concat, C21_repeat), and - third pass - so does every NESTING of them: for "
+        "every composition term over regex literals (each leaf with its own flags), the value built step by step like value/regex.go builds it "
+        "denotes the composition of the leaf denotations (C21_compose_sound, induction on the term), with any other way of wrapping the sources "
+        "that is right for one step (C21_compose_any_wrapping), and its compiled Go matcher accepts exactly what the term denotes "
+        "(C21_compose_transpile_sound; leaves without x). C21_extended_refuted: with flag x the faithful "
         "model turns `a # x|y\\nb` into `a|yb`. Extended mode, what holds: C21_extended_partial (global x, no flag group mentioning x, no `#`) and, "
         "second pass, C21_extended_flags_partial / C21_extended_flags_sound: for EVERY tree and flag set, with x switched on and off by the "
         "literal and by bare `(?x)` `(?-x)` and scoped `(?x:..)` `(?-x:..)` groups in any nesting, if no `#` character node stands where x is on "
@@ -373,7 +812,15 @@ def run(ctx):
         "printed text as the structured term and implements the assumed semantics m2, and that the compiled matcher accepts what the Elk tree "
         "denotes - stream c21.match; (c) comments and the source-level reading of extended mode: text comparison plus the direct oracle "
         "Transpile(src, f) == Transpile(xstrip(src), f - x) on the implementation's own outputs, where xstrip (harness, independent of lexer, parser "
-        "and transpiler) follows the x state through the flag groups of the source text. Unicode tables, fold orbits and POSIX "
+        "and transpiler) follows the x state through the flag groups of the source text; (d) that Regex#+ / Regex#* (ConcatVal / RepeatVal: glue the "
+        "operands' SOURCES into a new source, parse and transpile it again) build the value the composition theorems speak about - stream "
+        "c21.compose: generated terms (`+`, `* n` with n in 0..3, depth <= 3) over generated leaves incl. sources that begin with `(` and end with `)` "
+        "without being one group, top-level alternations, anchors, the empty regex, evaluated through the Go API that vm/regex.go registers and as Elk "
+        "expressions in the VM, on subjects built from samples of the leaves' languages and their near-misses; the expected verdict of every subterm "
+        "is the extracted denotation cden computed from the LEAF trees only (the composed source is never parsed on the model side); leaves with x "
+        "enter with the stripped tree of C21_extended_flags_sound, terms with a leaf that has a comment or lies in a c21.match known-finding "
+        "class are not evaluated. A failing term is attributed to the innermost step whose match relation (start -> end positions on the "
+        "subjects) differs from the denoted one. Unicode tables, fold orbits and POSIX "
         "tables are oracles instantiated per case from the live Go packages. The model mirrors the code AFTER fixes/C21-global-flags.patch "
         "and fixes/C21-empty-split-class.patch; on a tree without them the check reports those two defects.")
     ctx.trusted_base += [
@@ -382,6 +829,10 @@ def run(ctx):
         "the runes of the subjects and their orbit members",
         "harness AST walker (harness/cmd/c21): the tree the model sees is the one regex/parser returned, serialised node by node; regex/lexer and regex/parser "
         "themselves are NOT modelled",
+        "c21.compose: the leaf trees are those regex/parser returned for the leaf sources (same walker); the second oracle composes the leaves' own "
+        "Transpile outputs with Go's regexp (`(?:T1)(?:T2)`, `(?:T){n}`); the diagnosis of a failing step reads a value's match relation through Go's regexp "
+        "on `\\A(?s:.{i})(?:text)(?s:.{k})\\z`; the Elk-level runs cover only leaves writable as %/../ literals (no `/`, `${`, control characters) and subjects writable "
+        "as raw strings",
         "second oracle for extended mode: xScan/xStrip in harness/cmd/c21 (follows x through bare and scoped flag groups of the source text; where x is on, "
         "comments and unescaped whitespace outside classes, escapes, \\Q..\\E and (?#..) are removed; its reading of where a class ends is Go's, not the Elk parser's)",
     ]
@@ -438,3 +889,4 @@ def run(ctx):
     ctx.stream("c21.match", t.match_evals, len(t.match_nontrivial), RULE_MATCH,
                [s for s in samples if "go=ok" in s["observed"]][:3], t.match_dist,
                mismatches=t.match_mism, failing_keys=sorted(seen["c21.match"]), patterns=t.match_cases)
+    compose_stream(ctx, h, m)
